@@ -1,0 +1,66 @@
+//! Verification hooks (compiled only with `--cfg daachorse_verif`).
+//!
+//! Nothing in this module is part of the public API of the crate. It gives an external checker
+//! read-only access to the raw tables of a built automaton, lets it call the crate's own
+//! transition functions from an arbitrary (in-range) state, and counts fail-link hops.
+
+extern crate std;
+
+use alloc::vec::Vec;
+
+std::thread_local! {
+    static FAIL_HOPS: core::cell::Cell<u64> = const { core::cell::Cell::new(0) };
+}
+
+/// Called by the transition loops each time a fail link is followed.
+#[inline(always)]
+pub(crate) fn tick() {
+    FAIL_HOPS.with(|c| c.set(c.get().wrapping_add(1)));
+}
+
+/// Returns the number of fail-link hops taken by the calling thread so far.
+#[must_use]
+pub fn fail_hops() -> u64 {
+    FAIL_HOPS.with(core::cell::Cell::get)
+}
+
+/// One element of a double array, as stored.
+#[derive(Clone, Copy, Debug, Eq, PartialEq)]
+pub struct RawState {
+    /// BASE value (0 = none).
+    pub base: u32,
+    /// CHECK value (the label for the byte-wise array, the parent index for the char-wise one).
+    pub check: u32,
+    /// FAIL index.
+    pub fail: u32,
+    /// Position in the output table plus one (0 = none).
+    pub output_pos: u32,
+}
+
+/// One record of the output table, as stored.
+#[derive(Clone, Copy, Debug, Eq, PartialEq)]
+pub struct RawOutput<V> {
+    /// Value of the pattern.
+    pub value: V,
+    /// Length of the pattern in bytes.
+    pub length: u32,
+    /// Position of the next record of the chain plus one (0 = none).
+    pub parent: u32,
+}
+
+/// Raw copy of an automaton.
+#[derive(Clone, Debug)]
+pub struct RawAutomaton<V> {
+    /// The double array.
+    pub states: Vec<RawState>,
+    /// The output table.
+    pub outputs: Vec<RawOutput<V>>,
+    /// The code-mapper table (char-wise only; empty otherwise).
+    pub mapper_table: Vec<u32>,
+    /// The alphabet size of the code mapper (char-wise only; 256 otherwise).
+    pub alphabet_size: u32,
+    /// The match kind as its serialized byte.
+    pub match_kind: u8,
+    /// The stored number of states.
+    pub num_states: u32,
+}
